@@ -1619,8 +1619,10 @@ class HorosphereArc(Horosphere, PointPair):
 
         thetas = utils.circle_angles(center, model_coords)
 
+        #one ideal center per circle center (an extra axis, since
+        #circle_angles expects an array of points for each circle)
         center_theta = utils.circle_angles(
-            center, self.center_coords(model=model)
+            center, np.expand_dims(self.center_coords(model=model), axis=-2)
         )[..., 0]
 
         thetas = np.flip(utils.arc_include(thetas, center_theta), axis=-1)
